@@ -243,7 +243,7 @@ class HistoryRunner:
 def observer_state(path, backend, timeout=0.2):
     """Committed state as a second read-only connection sees it; None when it cannot be read."""
     try:
-        conn = sqlite3.connect(f"file:{path}?mode=ro", uri=True, timeout=timeout)
+        conn = sqlite3.connect(f"file:{__import__('urllib.parse').parse.quote(path)}?mode=ro", uri=True, timeout=timeout)
     except sqlite3.Error:
         return None
     try:
